@@ -29,7 +29,7 @@ def run(chk):
     for i, o in enumerate(ORDERS3):
         tasks.append(dict(n=3, order=o, via=ORDERS3[(i + 2) % 6] if i % 2 else None,
                           us_stride=1, us_offset=0,
-                          extra=1 if q else 1 + i % 2))
+                          extra=chk.th(1, 1) + i % 2))
     if q:
         for part in range(4):
             tasks.append(dict(n=4, order=ORDERS4[(chk.seed + 9) % 24], via=None,
@@ -44,18 +44,18 @@ def run(chk):
     sw, res = chk.generate(sweep.c10_sweep_task, tasks)
     chk.traces += 0
     chk.extra['sweep_results_judged'] = sum(r['events'] for r in res)
-    sh_stream = common.stage_histories(chk, ntraces=32 if q else 1500, steps=10 if q else 40,
+    sh_stream = common.stage_histories(chk, ntraces=chk.th(32, 1500), steps=chk.th(10, 40),
                                        nvars_choices=[3, 4, 4], profile='stream', tag='st')
     chk.validate('TraceSweep', 'TraceSweep.cfg', sw)
     sh_stream += common.stage_wide(chk, 'sat')
-    sh_stream += common.stage_histories(chk, ntraces=16 if q else 96, steps=0, nvars_choices=[0],
+    sh_stream += common.stage_histories(chk, ntraces=chk.th(16, 96), steps=0, nvars_choices=[0],
                                         profile='zero', tag='zero')     # managers with 0-2 variables
     chk.validate('TraceBDD', 'TraceBDD.cfg', sh_stream)
     # supports of 54-70 variables: the counting laws (complement, doubling, closed forms) in
     # big-number arithmetic written in TLA+ (BigNat.tla, TraceBig.tla)
     from harness.drivers import wide as _wide
     bt = [dict(shard=chk.shard('big_c10_%d' % i), tid0=10900000 + i * 100, seed=chk.seed * 7 + i,
-               ntraces=2 if q else 30) for i in range(4)]
+               ntraces=chk.th(2, 30)) for i in range(4)]
     bsh, _ = chk.generate(_wide.big_count_task, bt)
     chk.validate('TraceBig', 'TraceBig.cfg', bsh)
 
